@@ -18,7 +18,7 @@ CONSTANTS Depth,             \* number of mutations applied to the base payloads
 C(cls, subj, iss, sn, isd, nb, na, ver) ==
     [cls |-> cls, subj |-> subj, iss |-> iss, sn |-> sn, isd |-> isd, nb |-> nb, na |-> na, ver |-> ver]
 
-CertPool == <<
+ExplicitPool == <<
     C("sens", 1, 1, 1, 1, -10, 20, 1),     \*  1  base pool: two sensitive, two regular, one root
     C("sens", 2, 2, 2, 1, -10, 20, 1),     \*  2
     C("reg",  3, 3, 3, 1, -10, 20, 1),     \*  3
@@ -51,6 +51,13 @@ CertPool == <<
     C("root", 25, 25, 28, 3, -10, 20, 1)   \* 30      ISD 65535
 >>
 
+\* 31..286: 256 further sensitive, 287..542: 256 further regular voting certificates (for quorum 255 / 256)
+NExplicit == Len(ExplicitPool)
+CertPool == [i \in 1..(NExplicit + 512) |->
+               IF i <= NExplicit THEN ExplicitPool[i]
+               ELSE IF i <= NExplicit + 256 THEN C("sens", 100 + i, 100 + i, 100 + i, 1, -10, 20, 1)
+               ELSE C("reg", 100 + i, 100 + i, 100 + i, 1, -10, 20, 1)]
+
 BaseA == [ver |-> 1, isd |-> 1, base |-> 1, serial |-> 1, nb |-> 0, na |-> 10, grace |-> 0,
           reset |-> TRUE, votes |-> <<>>, quorum |-> 2, core |-> <<1, 2>>, auth |-> <<1>>,
           desc |-> 1, certs |-> <<1, 2, 3, 4, 5>>]
@@ -59,7 +66,9 @@ BaseC == [BaseA EXCEPT !.isd = 2, !.base = 2, !.serial = 2, !.quorum = 1, !.core
                        !.auth = <<3>>, !.certs = <<27, 26, 25>>]
 BaseD == [BaseA EXCEPT !.isd = 3, !.serial = 2, !.quorum = 1, !.core = <<4, 5>>, !.auth = <<5, 4>>,
                        !.desc = 0, !.votes = <<2>>, !.certs = <<28, 29, 30>>]
-Bases == <<BaseA, BaseB, BaseC, BaseD>>
+\* 256 sensitive + 256 regular voters: the only way to see the upper quorum bound by itself
+BaseE == [BaseA EXCEPT !.quorum = 255, !.certs = <<5>> \o [i \in 1..512 |-> NExplicit + i]]
+Bases == <<BaseA, BaseB, BaseC, BaseD, BaseE>>
 
 VoteLists == <<(<<>>), <<0>>, <<0, 0>>, <<-1, 7>>>>
 ASLists == <<(<<>>), <<0>>, <<1, 1>>, <<1, 0>>, <<2, 1, 3, 4, 5>>, <<3>>>>
@@ -104,7 +113,7 @@ vars == <<p, depth, maxd>>
 
 Init == \E b \in BaseIds : p = Bases[b] /\ depth = 0 /\ maxd = IF b \in DeepIds THEN Depth ELSE 1
 Mutate == /\ depth < maxd
-          /\ \E m \in Muts : p' = Apply(p, m) /\ p' # p
+          /\ \E m \in (IF Len(p.certs) > 100 THEN {x \in Muts : x.k = "quorum"} ELSE Muts) : p' = Apply(p, m) /\ p' # p
           /\ depth' = depth + 1
           /\ UNCHANGED maxd
 Next == Mutate
